@@ -143,12 +143,13 @@ class Evaluator:
                 obj = repr(self.ev(r[1]))
             else:
                 raise ValueError(f"unknown recipe {k}")
+            fp = fingerprint(obj)  # observing the result (qubit lists, expressions) is part of the operation
         except _Propagate:
             raise
         except Exception as e:
             self.log.append((key_of(r), "raised " + type(e).__name__))
             raise _Propagate(type(e).__name__)
-        self.log.append((key_of(r), fingerprint(obj)))
+        self.log.append((key_of(r), fp))
         return obj
 
 
@@ -178,7 +179,7 @@ def strip(r):
 RECIPE_HEADS = {"live", "compile", "bind", "defs", "oraclize", "grover", "dj", "bv", "simon", "export", "decompile", "optimize", "tt", "logicfun", "repr"}
 
 
-def eval_fresh(recipe, timeout=120):
+def eval_fresh(recipe, timeout=60):
     """evaluate a (stripped) recipe alone in a fresh interpreter; -> fingerprint of the top node or 'raised X'"""
     here = os.path.dirname(os.path.dirname(os.path.abspath(__file__)))
     env = dict(os.environ)
